@@ -35,6 +35,10 @@ def f_group(cache, rep):
     return cache.get(("group", rep), mk)
 
 
+def hat(u):
+    return np.array([[0, -u[2], u[1]], [u[2], 0, -u[0]], [-u[1], u[0], 0]], float)
+
+
 def call(f, *a):
     r = f(*a)
     return [np.array(x) for x in (r if isinstance(r, (list, tuple)) else [r])]
@@ -77,6 +81,37 @@ def replay(run, cache, tv):
         cmp.vec(f"{kind}/right_jacobian_inv/inverse/{cell}", "J_r J_r^-1 != I", Jr @ Jri, I(d), tv)
         cmp.vec(f"{kind}/Jl_eq_Ad_Jr/{cell}", "J_l != Ad_exp(xi) J_r", Jl, AdE @ Jr, tv)
         cmp.vec(f"{kind}/Jr_eq_Jl_neg/{cell}", "J_r(xi) != J_l(-xi)", Jr, Jlm, tv)
+    elif op in ("jac_se3_gen", "jac_se23_gen"):
+        kind = "se3" if op == "jac_se3_gen" else "se23"
+        h = tv["h"]; th, nu, mu, v, n = E.hscal(h)
+        R = rm_to_np(tv["exp"])
+        Hm = hat(v); Z = np.zeros((3, 3))
+        rho = np.array(tv["rho"], float); pp = E.sym_vec(tv["p"], mu)
+        if kind == "se3":
+            xi = np.concatenate([rho, nu * v])
+            ad = np.block([[nu * Hm, hat(rho)], [Z, nu * Hm]])
+            AdE = np.block([[R, hat(pp) @ R], [Z, R]])
+            AdEm = np.block([[R.T, -R.T @ hat(pp)], [Z, R.T]])
+            ks = [xi, np.concatenate([v, np.zeros(3)])]
+        else:
+            rho2 = np.array(tv["rho2"], float); pv = E.sym_vec(tv["p2"], mu)
+            xi = np.concatenate([rho, rho2, nu * v])
+            ad = np.block([[nu * Hm, Z, hat(rho)], [Z, nu * Hm, hat(rho2)], [Z, Z, nu * Hm]])
+            AdE = np.block([[R, Z, hat(pp) @ R], [Z, R, hat(pv) @ R], [Z, Z, R]])
+            AdEm = np.block([[R.T, Z, -R.T @ hat(pp)], [Z, R.T, -R.T @ hat(pv)], [Z, Z, R.T]])
+            ks = [xi, np.concatenate([v, np.zeros(6)]), np.concatenate([np.zeros(3), v, np.zeros(3)])]
+        d = ad.shape[0]
+        Jl, Jli, Jr, Jri, Jlm = call(f_alg(cache, kind), xi)
+        # the dexp equations are scaled by 1/theta so that small angles are not hidden by the tolerance
+        sc = 1.0 / max(th, 1e-3) if th < 1 else 1.0
+        cmp.vec(f"{kind}/left_jacobian/dexp_gen/{cell}", "J_l ad_xi != Ad_exp(xi) - I", sc * (Jl @ ad), sc * (AdE - I(d)), tv)
+        cmp.vec(f"{kind}/right_jacobian/dexp_gen/{cell}", "J_r ad_xi != I - Ad_exp(-xi)", sc * (Jr @ ad), sc * (I(d) - AdEm), tv)
+        for i, k in enumerate(ks):
+            cmp.vec(f"{kind}/left_jacobian/kernel{i}_gen/{cell}", "J_l k != k on ker ad_xi", Jl @ k, k, tv)
+            cmp.vec(f"{kind}/right_jacobian/kernel{i}_gen/{cell}", "J_r k != k on ker ad_xi", Jr @ k, k, tv)
+        cmp.vec(f"{kind}/left_jacobian_inv/inverse_gen/{cell}", "J_l J_l^-1 != I", Jl @ Jli, I(d), tv)
+        cmp.vec(f"{kind}/right_jacobian_inv/inverse_gen/{cell}", "J_r J_r^-1 != I", Jr @ Jri, I(d), tv)
+        cmp.vec(f"{kind}/Jl_eq_Ad_Jr_gen/{cell}", "J_l != Ad_exp(xi) J_r", Jl, AdE @ Jr, tv)
     elif op == "jac_zero":
         kind = tv["kind"]
         ad = np.array(tv["ad"], float); d = ad.shape[0]
@@ -132,7 +167,7 @@ def main():
         if ops[tv["op"]] == 4:
             run.sample({k: tv[k] for k in tv if k in ("op", "h", "alpha", "y", "y1", "y2", "q", "w", "xi", "kind", "cell")}, limit=8)
         replay(run, cache, tv)
-    need = {"jac_so3", "jac_se3", "jac_se23", "jac_zero", "gjac"}
+    need = {"jac_so3", "jac_se3", "jac_se23", "jac_se3_gen", "jac_se23_gen", "jac_zero", "gjac"}
     if not need <= set(ops) or not {"small", "beyondpi", "regular", "nearpi"} <= set(cells):
         raise MachineryError(f"vacuous coverage: ops={sorted(need - set(ops))} cells={sorted(cells)}")
     run.assumptions += [
